@@ -208,7 +208,7 @@ def creation_recursion(case: dict) -> bool:
 PRELUDE = '''
 import datetime, decimal, sys
 from dataclasses import dataclass, field
-from typing import Annotated, Any, Dict, Generic, List, NewType, Optional, Self, Tuple, TypeVar, Union
+from typing import Annotated, Any, Dict, Generic, List, NamedTuple, NewType, Optional, Self, Tuple, TypedDict, TypeVar, Union
 from mashumaro import DataClassDictMixin, pass_through
 from mashumaro.config import BaseConfig, ADD_DIALECT_SUPPORT
 from mashumaro.dialect import Dialect
